@@ -467,9 +467,10 @@ class Printer:
             if rd.get('kind') in ('FunctionDecl', 'CXXMethodDecl'):
                 raise Unsupported(f'function reference {rd.get("name")} outside a call')
             ty = rd.get('type', {}).get('qualType', '').rstrip()
+            nm = getattr(self, 'pack_names', {}).get(rd.get('id'), rd['name'])
             if ty.endswith('&') or rd.get('id') in self.byref_captures:
-                return f'(*{rd["name"]})'
-            return rd['name']
+                return f'(*{nm})'
+            return nm
         if k == 'CXXThisExpr':
             return 'self'
         if k == 'MemberExpr':
@@ -967,8 +968,18 @@ class Printer:
         ps = []
         if self.self_struct:
             ps.append(f'{self.self_struct}* self')
+        # an expanded parameter pack (`ttensors&&... tensors`) repeats one name: the instantiation's parameters get positional
+        # names (tensors_0, tensors_1, ..), uses are resolved by declaration id
+        names = [q.get('name') for q in params]
+        self.pack_names = {}
+        seen = {}
+        for q in params:
+            nm = q.get('name')
+            if nm is not None and names.count(nm) > 1:
+                self.pack_names[q.get('id')] = f'{nm}_{seen.get(nm, 0)}'
+                seen[nm] = seen.get(nm, 0) + 1
         for k, q in enumerate(params):
-            ps.append(f'{self.ctype(q["type"])} {q.get("name", f"nv_unnamed{k}")}')
+            ps.append(f'{self.ctype(q["type"])} {self.pack_names.get(q.get("id"), q.get("name", f"nv_unnamed{k}"))}')
         ps += list(extra_params)
         text = self.stmt(body, 0)
         inits = [c for c in d['inner'] if c.get('kind') == 'CXXCtorInitializer']
